@@ -27,7 +27,7 @@ fn spec(t: Tier) -> Spec {
     Spec {
         id: "C07",
         level: "exploration",
-        rule: format!("every name of <= {} characters over {:?} (except . and ..) is created as a file (t/f/NAME), as a directory holding another such name (t/d/NAME/NEXT), and used as a starting point (as given, and for directories respelled NAME/, NAME//, NAME/., ./NAME, .//NAME/ under -P, -H and -L (printed as given, the entry below joined with exactly one more '/' unless the spelling already ends in one); the starting-point lists also go through the real pipeline); find_main's -print0 and -print output must be, byte for byte, the starting point as given + '/'-joined names + one delimiter per entry and nothing else (reference list built from the names, sequence under -sorted); the same tree goes through a real `find -print0 | xargs -0 vrec LOG` pipeline and the recorder's argv must be that list exactly, each path once; extra slices: a path with a newline followed by >1024 bytes through real stdout (pipe and file), and a listing arranged so that a multi-byte character straddles the 8192-byte buffer refill of xargs -0; non-trivial = name containing a character other than 'a' and '.'", maxlen(t), ALPHA),
+        rule: format!("every name of <= {} characters over {:?} (except . and ..) is created as a file (t/f/NAME), as a directory holding another such name (t/d/NAME/NEXT), and used as a starting point (as given, and for directories respelled NAME/, NAME//, NAME/., ./NAME, .//NAME/ under -P, -H and -L (printed as given, the entry below joined with exactly one more '/' unless the spelling already ends in one); the starting-point lists also go through the real pipeline); find_main's -print0 and -print output must be, byte for byte, the starting point as given + '/'-joined names + one delimiter per entry and nothing else (reference list built from the names, sequence under -sorted); the same tree goes through a real `find -print0 | xargs -0 vrec LOG` pipeline and the recorder's argv must be that list exactly, each path once; extra slices: a path with a newline followed by >1024 bytes through real stdout (pipe and file), a listing arranged so that a multi-byte character straddles the 8192-byte buffer refill of xargs -0, and listings of 2500 entries arranged so that a NUL is exactly the last byte of a full 8192-byte buffer / the first byte of the next (pipeline and regular file); non-trivial = name containing a character other than 'a' and '.'", maxlen(t), ALPHA),
         bound: json!({"max_name_len": maxlen(t), "alphabet": ALPHA}),
         assumptions: vec!["names are valid UTF-8 (the statement's scope); tmpfs".into()],
         shards: 0,
@@ -253,6 +253,9 @@ fn run(ctx: &mut Ctx) {
     if ctx.shard == 1 % ctx.nshards {
         buffer_edge_listing(ctx);
     }
+    if ctx.shard == 2 % ctx.nshards {
+        delimiter_at_edge_listing(ctx);
+    }
     crate::sandbox::clear_dir(&sbx);
 }
 
@@ -305,6 +308,71 @@ fn long_newline_path(ctx: &mut Ctx) {
 }
 
 /// listing arranged so that a 2-byte character straddles a multiple of 8192 in the -print0 stream
+/// Listings of 2500 entries arranged (by the length of one padding name) so that a NUL delimiter
+/// is exactly the LAST byte of a completely filled 8192-byte buffer, and so that it is exactly the
+/// FIRST byte of the next one: through the pipeline and from a regular file (where xargs' reads
+/// really are whole buffers).
+fn delimiter_at_edge_listing(ctx: &mut Ctx) {
+    let sbx = ctx.sbx.clone();
+    let mut done = [false, false];
+    for pad in 0..40usize {
+        let mut names: Vec<String> = vec![];
+        if pad > 0 {
+            names.push(format!("0{}", "p".repeat(pad)));
+        }
+        for i in 0..2500 {
+            names.push(format!("n{:05}", i));
+        }
+        let mut exp = vec!["e".to_string()];
+        for n in sorted_bytes(&names) {
+            exp.push(format!("e/{n}"));
+        }
+        let stream = joined(&exp, 0);
+        let last = (1..=stream.len() / 8192).any(|k| stream[k * 8192 - 1] == 0);
+        let first = (1..=stream.len() / 8192).any(|k| k * 8192 < stream.len() && stream[k * 8192] == 0);
+        for (which, hit, what) in [(0usize, last, "a NUL as the last byte of a full 8192-byte buffer"), (1, first, "a NUL as the first byte after an 8192-byte buffer")] {
+            if !hit || done[which] {
+                continue;
+            }
+            done[which] = true;
+            crate::sandbox::clear_dir(&sbx);
+            std::fs::create_dir(sbx.join("e")).unwrap();
+            for n in &names {
+                std::fs::write(sbx.join("e").join(osn(n)), b"").unwrap();
+            }
+            ctx.rep.count("delimiter_exactly_at_a_buffer_edge", 1);
+            ctx.rep.nontrivial += 1;
+            pipeline_check(ctx, &sbx, &["e", "-sorted"], &exp, what);
+            let listf = sbx.join(".mc-list");
+            std::fs::write(&listf, &stream).unwrap();
+            let vrec = crate::engine::self_bin_dir().join("vrec");
+            let log = sbx.join(".mc-vrec.log");
+            let _ = std::fs::remove_file(&log);
+            let cmd = format!("exec {} -0 {} {} < {}", binrun::repo_bin("xargs").display(), vrec.display(), log.display(), listf.display());
+            let o = binrun::run(Path::new("/bin/sh"), &[OsStr::new("-c"), OsStr::new(&cmd)], &sbx, &binrun::Opts::default());
+            let got: Vec<Vec<u8>> = crate::vreclog::read(&log).unwrap_or_default().into_iter().flat_map(|r| r.args).collect();
+            let want: Vec<Vec<u8>> = exp.iter().map(|s| s.as_bytes().to_vec()).collect();
+            ctx.rep.evaluations += 1;
+            if o.code != Some(0) || got != want {
+                let firstbad = got.iter().zip(want.iter()).find(|(g, w)| g != w).map(|(g, w)| format!("expected {:?} got {:?}", show(w), show(g))).unwrap_or_default();
+                ctx.rep.violation(
+                    "C07 xargs -0 reading a NUL-separated list from a file loses or alters arguments when a delimiter falls exactly at an 8192-byte buffer edge",
+                    format!("{what}: status {:?}: {} expected, {} delivered; {firstbad}", o.code, want.len(), got.len()),
+                    json!({"prop":"C07","kind":"pipeline","what":"delimiter at 8192 edge from file"}),
+                );
+            } else {
+                ctx.rep.traces_validated += 1;
+            }
+            let _ = std::fs::remove_file(&log);
+            let _ = std::fs::remove_file(&listf);
+        }
+        if done == [true, true] {
+            return;
+        }
+    }
+    ctx.rep.machinery("could not arrange a delimiter exactly at an 8192-byte boundary".into());
+}
+
 fn buffer_edge_listing(ctx: &mut Ctx) {
     let sbx = ctx.sbx.clone();
     for pad in 0..40usize {
